@@ -114,12 +114,11 @@ struct Outcome {
     budget: bool,
 }
 
-fn run_case(case: &Value, b: Backend, conn: &TlsConnector, acc: &TlsAcceptor) -> Outcome {
+fn run_case(case: &Value, conn: &TlsConnector, acc: &TlsAcceptor) -> Outcome {
     let buffering = case["buffering"].as_bool().unwrap_or(false);
     let data = payload(case["payload"].as_u64().unwrap_or(0));
     let init_c = case["init"].as_str().unwrap_or("c") == "c";
     let first = if case["first"].as_str().unwrap_or("c") == "c" { 0 } else { 1 };
-    let _ = b;
     let (ec, es, sh) = duplex::duplex(
         sched(&case["sched"]["c"]),
         sched(&case["sched"]["s"]),
@@ -175,6 +174,7 @@ fn main() {
     let wd = Watchdog::start(Report::new());
     let mut agg: std::collections::BTreeMap<String, [u64; 8]> = Default::default();
     let mut per_backend: std::collections::BTreeMap<String, u64> = Default::default();
+    let mut clean: std::collections::BTreeMap<String, u64> = Default::default();
     for case in cases_from_arg() {
         for (b, conn, acc) in &pairs {
             let base = json!({"site": "tls", "backend": b.name(),
@@ -182,7 +182,7 @@ fn main() {
             let mut hs = base.clone();
             hs["kind"] = json!("watchdog");
             wd.arm(120, hs, "no progress for 120 s inside one poll of the layer".into(), &case);
-            let r = std::panic::catch_unwind(AssertUnwindSafe(|| run_case(&case, *b, conn, acc)));
+            let r = std::panic::catch_unwind(AssertUnwindSafe(|| run_case(&case, conn, acc)));
             wd.disarm();
             wd.with(|rep| {
                 rep.cases += 1;
@@ -214,8 +214,10 @@ fn main() {
                 // held while that role still handshakes are a handshake flight
                 let mut lost = "none";
                 let mut holder = "";
+                let mut peer_stage = "";
                 for i in 0..2 {
                     if o.held[i] > 0 {
+                        peer_stage = o.obs[1 - i].stage;
                         lost = match o.obs[i].stage {
                             "read_eof" | "done" => "close_alert",
                             "handshake" => "handshake_flight",
@@ -232,6 +234,7 @@ fn main() {
                     sig["stage"] = stages.clone();
                     sig["lost"] = json!(lost);
                     sig["holder"] = json!(holder);
+                    sig["peer_stage"] = json!(peer_stage);
                     rep.problem(
                         "hang",
                         sig,
@@ -256,6 +259,7 @@ fn main() {
                             sig["stage"] = json!(stage);
                             sig["lost"] = json!(lost);
                             sig["holder"] = json!(holder);
+                    sig["peer_stage"] = json!(peer_stage);
                             rep.problem(
                                 "contract",
                                 sig,
@@ -288,6 +292,7 @@ fn main() {
                             sig["kind"] = json!("unflushed");
                             sig["lost"] = json!(lost);
                             sig["holder"] = json!(role);
+                            sig["peer_stage"] = json!(o.obs[1 - i].stage);
                             rep.problem(
                                 "contract",
                                 sig,
@@ -306,7 +311,9 @@ fn main() {
                         }
                     }
                 }
-                let _ = real_ok;
+                if real_ok {
+                    *clean.entry(b.name().into()).or_default() += 1;
+                }
             });
         }
     }
@@ -323,6 +330,7 @@ fn main() {
     wd.with(|rep| {
         rep.set("transport", Value::Object(aggj));
         rep.set("cases_per_backend", json!(per_backend));
+        rep.set("cases_completed_cleanly", json!(clean));
     });
     wd.finish();
 }
